@@ -89,12 +89,16 @@ def check(case):
             if func in ("first", "last"):
                 nkw.pop("skipna", None)
                 exp = getattr(gb, func)(keep_attrs=case["keep_attrs"])
+            elif func == "quantile":
+                exp = gb.quantile(case["q"], dim=dim_arg, keep_attrs=case["keep_attrs"], **nkw)
             else:
                 exp = getattr(gb, func)(dim=dim_arg, keep_attrs=case["keep_attrs"], **nkw)
             exp = exp.compute()
     except Exception:
         return None
     try:
+        if func == "quantile":
+            kw = {**kw, "q": case["q"]}
         got = xarray_reduce(obj, *by, func=func, dim=dim_arg, keep_attrs=case["keep_attrs"], **kw)
         lazy_ok = True
         if case.get("chunk"):
@@ -115,7 +119,11 @@ def check(case):
             return f"{name}: dims {g.dims} != native {e.dims}"
         if e.name != g.name:
             return f"{name}: name {g.name!r} != native {e.name!r}"
-        if dict(e.attrs) != dict(g.attrs):
+        if case["keep_attrs"] and dict(e.attrs) != dict(g.attrs):
+            # the property compares attributes "with keep_attrs"; without it native xarray is not uniform itself
+            # (GroupBy.quantile keeps them regardless), so nothing is demanded
+            return f"{name}: attrs {dict(g.attrs)} != native {dict(e.attrs)}"
+        if not case["keep_attrs"] and func != "quantile" and dict(e.attrs) != dict(g.attrs):
             return f"{name}: attrs {dict(g.attrs)} != native {dict(e.attrs)}"
         if e.shape != g.shape:
             return f"{name}: shape {g.shape} != native {e.shape}"
@@ -212,6 +220,16 @@ def bounded_cases(ctx: Ctx):
                 if i % 3 == 0:
                     c["chunk"] = [1, 2, 3][i % 3] + 1 if False else 2
                 cases.append(c)
+    # order statistics with a scalar and a vector q (an extra leading "quantile" dimension for the vector)
+    for dims in dimsets:
+        for rep in range(3 if ctx.quick else 10):
+            i += 1
+            g = ["lab", "external"][i % 2]
+            c = dict(dims=list(dims), func="quantile", q=[0.5, [0.25, 0.75], 0.0][i % 3], grouper=g, skipna=[None, True, False][i % 3], dim=[None, "x"][i % 2], keep_attrs=bool(i % 2),
+                     data_seed=ctx.seed * 1000 + i, dataset=(i % 5 == 0), int_data=False)
+            if i % 4 == 0:
+                c["chunk"] = -1  # order statistics need the grouped dimension in one chunk
+            cases.append(c)
     return cases
 
 
